@@ -233,8 +233,15 @@ package tree
 //@   ensures [range-doubles] t.treeSize == 2 * old(t.treeSize) && t.root.splitLC == old(t.treeSize) && t.root.limitLC == 2 * old(t.treeSize)
 //@   ensures [own-copy-of-the-digest] t.root.data == ret(call (Data).Clone #1)
 
+// Loading from a shelf without leaves yields the tree of a DAG without transactions (whatever the
+// in-memory tree held before: the reload after a rolled-back first write).
+//@ func (*tree).resetDefaults
+//@   prop C08
+//@   ensures [empty-tree] t.root != nil && t.root.left == nil && t.root.right == nil && t.root.data == ret(call (Data).New #1) && t.leafSize == leafSize && t.treeSize == leafSize
+//@        && t.root.splitLC == leafSize/2 && t.root.limitLC == leafSize
 //@ func (*tree).Load
 //@   prop C08
+//@   ensures [nothing-stored-means-an-empty-tree] isNilIface(result) && len(leaves) == 0 ==> did(call (*tree).resetDefaults #1) && arg(call (*tree).resetDefaults #1, 0) == t && arg(call (*tree).resetDefaults #1, 1) == old(t.leafSize)
 //@   call store.data #1 requires arg(1) == ret(call (Data).New #1)
 //@   call store.data #2 requires arg(1) == ret(call (Data).Clone #1)
 //@   call store.left #1 requires did(call (Data).Clone #1)
